@@ -25,10 +25,12 @@ type caseC07dec struct {
 	Via  string `json:"via"`            // decode | unmarshal | hex
 	Text string `json:"text,omitempty"` // for via=hex: the literal string (may be malformed hex)
 	// TextHex: the same as hex of the raw bytes (strings that are not valid UTF-8 do not survive JSON)
-	TextHex string     `json:"text_hex,omitempty"`
-	Prior   SV         `json:"prior"`           // receiver before the call
-	Nil     bool       `json:"nilin,omitempty"` // pass a nil slice instead of an empty one
-	Lay     gen.Layout `json:"layout"`          // where the input sits in its backing array (offset / alignment, spare capacity)
+	TextHex string `json:"text_hex,omitempty"`
+	// Huge > 0: the input is Data followed by zeros up to Huge bytes in total (2^32 + 32 ...): 64-bit platforms only
+	Huge  int64      `json:"huge,omitempty"`
+	Prior SV         `json:"prior"`           // receiver before the call
+	Nil   bool       `json:"nilin,omitempty"` // pass a nil slice instead of an empty one
+	Lay   gen.Layout `json:"layout"`          // where the input sits in its backing array (offset / alignment, spare capacity)
 }
 
 func genScalarBytes(t *rapid.T) []byte {
@@ -200,6 +202,11 @@ var c07dec = gen.Register(&gen.Check[caseC07dec]{
 		}
 		max := new(big.Int).Sub(new(big.Int).Lsh(big.NewInt(1), 256), big.NewInt(1))
 		var out []caseC07dec
+		for _, via := range []string{"decode", "unmarshal"} {
+			for _, base := range []int64{1 << 32, 1 << 33} {
+				out = append(out, caseC07dec{Data: hex.EncodeToString(ref.Bytes32(big.NewInt(0xC07))), Via: via, Prior: p, Huge: base + 32})
+			}
+		}
 		// every byte value at a few positions of a valid hex string (what a hand-rolled hex digit test lets through)
 		for _, via := range []string{"hex", "text"} {
 			txt := hex.EncodeToString(ref.Bytes32(big.NewInt(0x1234567)))
@@ -383,6 +390,27 @@ func TestC07Encode(t *testing.T) { c07enc.Execute(t) }
 func isTextVia(via string) bool { return via == "hex" || via == "text" || via == "json" }
 
 func c07decOnce(c caseC07dec, o *gen.Obs) error {
+	if c.Huge > 0 {
+		data, release := gen.Huge(c.Huge, gen.HexBytes(c.Data))
+		defer release()
+		if data == nil {
+			o.Class("skipped:no-huge-slices-here")
+			return nil
+		}
+		o.Class("input>=2^32")
+		o.NonTrivial()
+		s := c.Prior.Build()
+		var err error
+		if c.Via == "unmarshal" {
+			err = s.UnmarshalBinary(data)
+		} else {
+			err = s.Decode(data)
+		}
+		if err == nil {
+			return gen.Fail("Decode/accepts-invalid", "%s accepted an input of %d bytes starting with %s", c.Via, c.Huge, c.Data)
+		}
+		return nil
+	}
 	if c.TextHex != "" {
 		c.Text = string(gen.HexBytes(c.TextHex))
 	}
